@@ -575,8 +575,21 @@ def impl_dirs(case):
     pos = np.array(case["signs"], dtype=float) * sc
     fake = FakeGroup(pas=np.eye(3), com=np.zeros(3), positions=pos)
     with core.quiet():
-        d = AssignmentTool._determine_positive_directions(None, fake)
+        d = _unit_tool()._determine_positive_directions(fake)
     return {"dirs": [int(x) for x in d]}
+
+
+_UNIT_TOOL = []
+
+
+def _unit_tool():
+    """one REAL AssignmentTool per process for the unit-level calls: the methods are called on an object built by the
+    class's own __init__ (never on None or a bare namespace), so that a refactoring that moves part of a method into a
+    helper method or precomputes something in __init__ is not mistaken for a change of behaviour"""
+    if not _UNIT_TOOL:
+        with core.quiet():
+            _UNIT_TOOL.append(_real_tool([1.0], [[1.0, 0.0, 0.0]], True, True))
+    return _UNIT_TOOL[0]
 
 
 def _real_tool(t, o, outliers, cartesian):
@@ -615,12 +628,15 @@ def impl_compose(case):
     """the two composing methods of the real class, with the three component assignments supplied"""
     from molgri.molecules.transitions import AssignmentTool
     t = np.array([np.nan if v is None else float(v) for v in case["t"]]) if None in case["t"] else np.array(case["t"])
-    self_ = types.SimpleNamespace(o_array=np.zeros((case["nO"], 3)), b_array=np.zeros((case["nB"], 4)),
-                                  _get_t_assignments=lambda: t, _get_o_assignments=lambda: np.array(case["o"]),
-                                  _get_quaternion_assignments=lambda: np.array(case["b"]))
-    self_._get_position_assignments = lambda: AssignmentTool._get_position_assignments(self_)
     with core.quiet():
-        a = np.asarray(AssignmentTool.get_full_assignments(self_), dtype=float)
+        self_ = _real_tool([1.0], [[1.0, 0.0, 0.0]], True, True)     # a real object; only the three component getters
+    self_.o_array = np.zeros((case["nO"], 3))                        # and the two grid arrays are replaced on the instance
+    self_.b_array = np.zeros((case["nB"], 4))
+    self_._get_t_assignments = lambda: t
+    self_._get_o_assignments = lambda: np.array(case["o"])
+    self_._get_quaternion_assignments = lambda: np.array(case["b"])
+    with core.quiet():
+        a = np.asarray(self_.get_full_assignments(), dtype=float)
     return {"full": [None if np.isnan(v) else (int(v) if float(v).is_integer() else float(v)) for v in a]}
 
 
@@ -1005,7 +1021,7 @@ def oracle_dirs(ctx, case, out):
         pos = np.array(case["signs"], dtype=float) * sc * np.array(s, dtype=float)
         try:
             with core.quiet():
-                d2 = [int(x) for x in AssignmentTool._determine_positive_directions(None, FakeGroup(np.eye(3), np.zeros(3), pos))]
+                d2 = [int(x) for x in _unit_tool()._determine_positive_directions(FakeGroup(np.eye(3), np.zeros(3), pos))]
         except Exception as e:
             ctx.fail("C11:dirs_equivariance", f"raises {core.errname(e)} after flipping two axes", case, None, s)
             return
